@@ -1,5 +1,5 @@
 # replay of a bounded stand-in violation (C13): re-run native/c13_tdm.py
 import sys
-print("calls ('unroll1', 'space1', 'lock'): the program no longer runs: IndexError: list index out of range")
+print('N=[1, 1] bands measured in order [1, 0] timebins=5 shots=2: samples[0,0,1] identifies pulse 1, expected pulse 2 (band 0)')
 print('REPLAY-VIOLATION')
 sys.exit(1)
